@@ -9,6 +9,7 @@ from __future__ import annotations
 import copy
 import math
 import pickle
+import warnings
 import re
 
 from sim.core import Outcome, Rng
@@ -38,7 +39,11 @@ SEEDS = [0.0, 1.0, -1.0, 90.0, -90.0, 180.0, 270.0, 360.0, 720.0, -360.0, 45.0, 
 TYPES = ['Vec', 'FrozenVec', 'Angle', 'FrozenAngle', 'Matrix', 'FrozenMatrix']
 OPS = ['new', 'new', 'from_str', 'copy', 'deepcopy', 'pickle', 'freeze', 'thaw', 'set_axis', 'setitem', 'imul', 'mul', 'matmul', 'matmul', 'imatmul',
        'imatmul', 'rmatmul_tuple', 'to_angle', 'vec_to_angle', 'transform', 'from_basis', 'ang_from_basis', 'add', 'iadd', 'sub', 'neg', 'norm',
-       'cross', 'localise', 'inverse', 'transpose', 'str', 'format', 'hash', 'from_angle', 'axis_mat', 'with_axes', 'rotate_by_str', 'round', 'abs']
+       'cross', 'localise', 'inverse', 'transpose', 'str', 'format', 'hash', 'from_angle', 'axis_mat', 'with_axes', 'rotate_by_str', 'round', 'abs',
+       'aug', 'aug', 'binop', 'minmax', 'clamped', 'lerp', 'bbox', 'axis_angle', 'rotation_around', 'to_angle_roll', 'rotate', 'basis_vec', 'iter_tuple',
+       'ang_compare']
+AUG = ['+=', '-=', '*=', '/=', '//=', '%=', '@=']
+BIN = ['+', '-', '*', '/', '//', '%', 'r-', 'r/', 'r%', 'divmod']
 _COMP = re.compile(r'-?\d+(\.\d{1,6})?')
 
 
@@ -72,6 +77,14 @@ def gen(rng: Rng, tier: str, index: int) -> dict:
             st = [op, [_val(r), _val(r), _val(r)], r.randrange(12)]
         elif op == 'with_axes':
             st = [op, r.pick(['Vec', 'FrozenVec', 'Angle', 'FrozenAngle']), r.randrange(3), _val(r)]
+        elif op == 'aug':
+            st = [op, r.randrange(12), r.randrange(12), r.pick(AUG), r.pick([None, None, 2.0, -0.5, 360.0, 1e-9])]
+        elif op == 'binop':
+            st = [op, r.randrange(12), r.randrange(12), r.pick(BIN), r.pick([None, None, 2.0, -0.5, 7.25])]
+        elif op in ('axis_angle', 'rotation_around', 'rotate'):
+            st = [op, r.randrange(12), _val(r), _val(r), _val(r)]
+        elif op == 'lerp':
+            st = [op, r.randrange(12), r.randrange(12), r.pick([0.0, 0.5, 1.0, -1.0, 2.5])]
         steps.append(st)
     return {'steps': steps}
 
@@ -322,6 +335,103 @@ def run(case: dict) -> Outcome:
                 cls = {'Vec': Vec, 'FrozenVec': FrozenVec, 'Angle': Angle, 'FrozenAngle': FrozenAngle}[st[1]]
                 axes = ('x', 'y', 'z') if 'Vec' in st[1] else ('pitch', 'yaw', 'roll')
                 res = cls.with_axes(axes[st[2]], st[3])
+            elif op == 'aug':
+                # augmented assignment: in place on the mutable classes, a new object on the frozen ones
+                a, b, sym, scalar = get(st[1]), get(st[2]), st[3], st[4]
+                rhs = b if scalar is None else scalar
+                src_id = id(a)
+                ns = {'a': a, 'b': rhs}
+                exec(f'a {sym} b', {}, ns)
+                if ns['a'] is not a:
+                    res = ns['a']
+                    if isinstance(a, (Vec, Angle, Matrix)) and isinstance(res, type(a)):
+                        out.event(si, 'aug-rebound', _kind(a))
+                label = f'aug{sym}:{_kind(a)}'
+                if scalar is None:
+                    dependent += 1
+            elif op == 'binop':
+                a, b, sym, scalar = get(st[1]), get(st[2]), st[3], st[4]
+                rhs = b if scalar is None else scalar
+                if sym == 'divmod':
+                    res = divmod(a, rhs)[st[1] % 2]
+                elif sym.startswith('r'):
+                    res = eval(f'b {sym[1:]} a', {}, {'a': a, 'b': rhs if scalar is not None else tuple(_comps(b))[:3]})
+                else:
+                    res = eval(f'a {sym} b', {}, {'a': a, 'b': rhs})
+                label = f'bin{sym}:{_kind(a)}'
+            elif op == 'minmax':
+                a, b = get(st[1]), get(st[2])
+                if isinstance(a, Vec) and isinstance(b, (Vec, FrozenVec)):
+                    (a.max if st[3] % 2 else a.min)(b)
+                label = 'minmax'
+            elif op == 'clamped':
+                a, b, c = get(st[1]), get(st[2]), get(st[3])
+                if isinstance(a, (Vec, FrozenVec)) and isinstance(b, (Vec, FrozenVec)) and isinstance(c, (Vec, FrozenVec)):
+                    res = a.clamped(b, c) if st[1] % 2 else a.clamped(mins=b)
+                label = f'clamped:{_kind(a)}'
+            elif op == 'lerp':
+                a, b = get(st[1]), get(st[2])
+                if isinstance(a, (Vec, FrozenVec)) and isinstance(b, (Vec, FrozenVec)):
+                    res = type(a).lerp(st[3], 0.0, 1.0, a, b)
+                label = f'lerp:{_kind(a)}'
+            elif op == 'bbox':
+                a, b, c = get(st[1]), get(st[2]), get(st[3])
+                if all(isinstance(x, (Vec, FrozenVec)) for x in (a, b, c)):
+                    lo, hi = type(a).bbox(a, b, c) if st[1] % 2 else type(a).bbox([a, b, c])
+                    put(lo, f'bbox:{_kind(a)}')
+                    res = hi
+                label = f'bbox:{_kind(a)}'
+            elif op == 'axis_angle':
+                a = get(st[1])
+                if isinstance(a, (Vec, FrozenVec)) and a:
+                    res = (Matrix if st[1] % 2 else FrozenMatrix).axis_angle(a if st[1] % 3 else tuple(a), st[2])
+                    dependent += 1
+                label = 'axis_angle'
+            elif op == 'rotation_around':
+                a = Vec([(1, 0, 0), (-1, 0, 0), (0, 1, 0), (0, -1, 0), (0, 0, 1), (0, 0, -1)][st[1] % 6])     # defined for axis directions only
+                with warnings.catch_warnings():
+                    warnings.simplefilter('ignore')
+                    res = a.rotation_around(st[2])
+                label = 'rotation_around'
+            elif op == 'to_angle_roll':
+                a, b = get(st[1]), get(st[2])
+                if isinstance(a, Vec) and isinstance(b, (Vec, FrozenVec)) and a and b:
+                    x = a.norm()
+                    if abs(Vec.dot(x, b.norm())) < 0.99:
+                        z = Vec.cross(Vec.cross(x, b.norm()), x).norm()
+                        with warnings.catch_warnings():
+                            warnings.simplefilter('ignore')
+                            res = x.to_angle_roll(z)
+                        dependent += 1
+                label = 'to_angle_roll'
+            elif op == 'rotate':
+                a = get(st[1])
+                if isinstance(a, Vec):
+                    with warnings.catch_warnings():
+                        warnings.simplefilter('ignore')
+                        a.rotate(st[2], st[3], st[4])
+                label = 'rotate'
+            elif op == 'basis_vec':
+                a = get(st[1])
+                if isinstance(a, (Matrix, FrozenMatrix)):
+                    res = (a.forward, a.left, a.up)[st[2] % 3]()
+                    dependent += 1
+                label = f'basis_vec:{_kind(a)}'
+            elif op == 'iter_tuple':
+                a = get(st[1])
+                if isinstance(a, (Vec, FrozenVec, Angle, FrozenAngle)):
+                    t = tuple(a)
+                    if t != tuple(a[i] for i in range(3)) or tuple(reversed(a)) != t[::-1]:      # (as_tuple() rounds by design: not compared)
+                        out.violate('copy-unequal', f'iter|{_kind(a)}', f'iteration / indexing of {a!r} disagree: {t}')
+                    res = type(a)(*t)
+                    src = a
+                label = f'iter_tuple:{_kind(a)}'
+            elif op == 'ang_compare':
+                a, b = get(st[1]), get(st[2])
+                if isinstance(a, (Angle, FrozenAngle)) and isinstance(b, (Angle, FrozenAngle)):
+                    if (a == b) == (a != b):
+                        out.violate('copy-unequal', 'eq-ne', f'{a!r} == {b!r} and != agree')
+                label = 'ang_compare'
             elif op == 'rotate_by_str':
                 a, b = get(st[1]), get(st[2])
                 if isinstance(a, Vec) and isinstance(b, (Angle, FrozenAngle)):
